@@ -20,6 +20,7 @@ import (
 //   "trace"          every operator mapped to a tracing function
 //   "override:<op>"  as trace, operator <op> mapped to a differently tagged tracing function
 //   "remove:<op>"    as trace without <op>
+//   "empty:<op>"     as trace, the function of <op> returns the empty string
 //   "readme"         the README construction (Shared + custom equals)
 //   "unsupported"    ToPostgres / ToParameterizedPostgres on a query containing ~ or ^
 //
@@ -96,6 +97,9 @@ func init() {
 			configs := []string{"trace", "readme"}
 			for _, op := range allOps {
 				configs = append(configs, "override:"+op.String(), "remove:"+op.String())
+				if op != expr.Literal && op != expr.Wild && op != expr.Regexp {
+					configs = append(configs, "empty:"+op.String())
+				}
 			}
 			if strings.Contains(unit, "|full|1|") && strings.HasSuffix(unit, "|leafun") {
 				for name := range apiTrees() {
@@ -130,7 +134,7 @@ func init() {
 		},
 		Eval:   c15Eval,
 		Shrink: c15Shrink,
-		Rule: "configurations {all-tracing map, each single-operator override (19), each single-operator removal (19), the README construction} x trees of TREE(L_full,1) ∪ TREE(L_small,2) (thorough: TREE(L_full,2)), " +
+		Rule: "configurations {all-tracing map, each single-operator override (19), each single-operator removal (19), each operator's function returning the empty string (16), the README construction} x trees of TREE(L_full,1) ∪ TREE(L_small,2) (thorough: TREE(L_full,2)), " +
 			"each obtained both by Parse and directly through the public constructors; plus ToPostgres/ToParameterizedPostgres on every text containing ~ or ^, including every value group f:(T) with T in TREE({x,y,phrase,5},2) over NOT ~ ~2 ^ ^2 AND OR; non-trivial = Render succeeded; distinct = distinct outputs",
 		Assumptions: []string{"how raw leaf values are serialised ('str', \"col\", numbers) is not part of this property and is not checked",
 			"the order in which independent children are rendered is not constrained, only children-before-parent"},
@@ -483,6 +487,14 @@ func c15Eval(c core.Case) (res core.Result) {
 		case "override":
 			fns[op] = tr.fn(op, "X")
 			tags[op] = "X"
+		case "empty":
+			// a custom function may return anything, the empty string included (an operator rendered
+			// as nothing): its parent is still called, with that result
+			fns[op] = func(left, right string) (string, error) {
+				tr.calls = append(tr.calls, &traceCall{key: op, tag: "E", left: left, right: right, ret: ""})
+				return "", nil
+			}
+			tags[op] = "E"
 		case "remove":
 			delete(fns, op)
 			delete(tags, op)
